@@ -31,7 +31,7 @@ ASSUMPTIONS = ['signs of the reference release\'s Riemann-Siegel Z (mpmath 1.3.0
                'used only to decide where the sweep refines, not for any violation',
                'the table BASE of (T_k, N(T_k)) was produced by the same sweep from t = 0; a sweep of block k re-verifies '
                'N(T_k+1) - N(T_k) in every run']
-SHARD_TIMEOUT = {'quick': 400, 'thorough': 3000}
+SHARD_TIMEOUT = {'quick': 900, 'thorough': 3400}
 LEVEL_TEXT = ('exploration: every sampled zero index is verified by counting sign changes of an independently evaluated Z(t) '
               'from a tabulated height (chain of blocks re-verified from t = 0 by the run) and by a sign change of Z in a '
               '2^(10-p) relative bracket around the returned ordinate; nzeros/backlunds are compared with the oracle count at a '
@@ -285,7 +285,32 @@ def count_changes(points):
 # ---------------------------------------------------------------------------------------
 BASE = [
     (10.0, 0), (278.7677393294386, 125), (471.7464009222871, 250), (647.0077204871302, 375),
-    (812.0037443080066, 500), (970.6081249551894, 625),
+    (812.0037443080066, 500), (970.6081249551894, 625), (1124.190136555832, 750), (1273.7352686121715, 875),
+    (1419.946197537239, 1000), (1563.7591409221504, 1125), (1705.099469837722, 1250), (1844.2260450149786, 1375),
+    (1981.369343776362, 1500), (2117.2893476363442, 1625), (2251.43542985067, 1750), (2384.2300475741017, 1875),
+    (2515.8990106372758, 2000), (2646.172350025791, 2125), (2776.124657385131, 2250), (2904.2788494383917, 2375),
+    (3031.976807376188, 2500), (3158.8763014600086, 2625), (3284.797352933693, 2750), (3409.9225543739285, 2875),
+    (3533.7275047658477, 3000), (3657.5673920237496, 3125), (3780.841251066808, 3250), (3902.956732011724, 3375),
+    (4024.8314181946303, 3500), (4146.245264014215, 3625), (4266.788388470828, 3750), (4387.006248080343, 3875),
+    (4506.932594944497, 4000), (4625.922576700848, 4125), (4744.720856739163, 4250), (4863.060510160092, 4375),
+    (4980.738988106288, 4500), (5098.3767757347305, 4625), (5215.3988301431, 4750), (5332.2050954464385, 4875),
+    (5448.354252326269, 5000), (5564.0405578942655, 5125), (5679.732416944994, 5250), (5795.133103520938, 5375),
+    (5909.857415179325, 5500), (6024.484861726835, 5625), (6138.918206720842, 5750), (6252.619716668928, 5875),
+    (6366.277839396659, 6000), (6479.170110839877, 6125), (6592.523270462917, 6250), (6705.276548189875, 6375),
+    (6818.226097518065, 6500), (6930.071431611528, 6625), (7041.932901527373, 6750), (7153.900820586625, 6875),
+    (7265.3519867846835, 7000), (7376.379694340389, 7125), (7487.630715834184, 7250), (7598.462763824321, 7375),
+    (7708.79093030899, 7500), (7819.1480862726885, 7625), (7929.142063543587, 7750), (8038.923818266631, 7875),
+    (8148.626755272521, 8000), (8258.361354192626, 8125), (8367.8879071109, 8250), (8477.099186225882, 8375),
+    (8585.888671126932, 8500), (8694.519728159716, 8625), (8802.971987551153, 8750), (8911.082246213497, 8875),
+    (9019.184399673017, 9000), (9126.764840169133, 9125), (9234.709615613769, 9250), (9342.458259049812, 9375),
+    (9449.904736221515, 9500), (9557.415266966027, 9625), (9664.411964531215, 9750), (9771.175334341346, 9875),
+    (9878.154894437697, 10000), (10726.883115101085, 11000), (10769.15542525151, 11050), (14041.110576019712, 15000),
+    (14082.073426455403, 15050), (18046.80343400844, 20000), (18086.487814563054, 20050), (25755.52496985221, 30000),
+    (25792.947801080718, 30050), (33190.40068393447, 40000), (33226.93727045264, 40050), (40433.95441424423, 50000),
+    (40469.79697762985, 50050), (47531.42224357591, 60000), (47566.82461676647, 60050), (54511.914920962045, 70000),
+    (54546.592036738955, 70050), (61394.31491496268, 80000), (61428.45792853815, 80050), (68193.94772233577, 90000),
+    (68227.79963174362, 90050), (74251.52693320466, 99000), (74284.91084836963, 99050), (74921.34650397362, 100000),
+    (74954.51441135583, 100050),
 ]
 BASE_N = dict((n, t) for t, n in BASE)
 
@@ -301,8 +326,6 @@ def blocks_for(tier):
         return [(a, b) for a, b in zip(have, have[1:]) if b <= 2000 and b - a == 125]
     out = [(a, b) for a, b in zip(have, have[1:]) if b <= 10000 and b - a == 125]
     out += [(a, b) for a, b in zip(have, have[1:]) if a > 10000 and b - a == 50]
-    if 6700 in BASE_N and 6720 in BASE_N:
-        out.append((6700, 6720))
     return out
 
 
@@ -362,7 +385,7 @@ def select_indices(r, n0, n1, tier, special):
             if n0 < n + d <= n1:
                 want.add(n + d)
     want.update([n0 + 1, n0 + 2, n1 - 1, n1])
-    budget = 46
+    budget = 28
     pool = [n for n in allidx if n not in want]
     r.shuffle(pool)
     # consecutive pairs so that monotonicity and "between consecutive returned zeros" are exercised
@@ -371,7 +394,7 @@ def select_indices(r, n0, n1, tier, special):
         want.add(n)
         if n + 1 <= n1:
             want.add(n + 1)
-    return sorted(want)[:budget + 12]
+    return sorted(want)[:budget + 10]
 
 
 def check_block(mp, rec, r, tier, n0, n1):
@@ -398,6 +421,15 @@ def check_block(mp, rec, r, tier, n0, n1):
     cum = [0]
     for i in range(1, len(pts)):
         cum.append(cum[-1] + (1 if pts[i][1] != pts[i - 1][1] else 0))
+    # Backlund / Turing consistency monitor: N(t) - 1 - theta(t)/pi = S(t) has mean ~ 0 over a block; a table entry that
+    # is off by one shifts the mean by one.  Not a violation by itself: it only withdraws the oracle (-> undecided).
+    rfp0 = R.fp
+    Svals = [(n0 + c) - 1 - float(rfp0.siegeltheta(t)) / math.pi for (t, s), c in zip(pts, cum)]
+    meanS = sum(Svals) / max(1, len(Svals))
+    rec.maximum('|mean of S(t)| over the trusted points of a block (Backlund/Turing monitor)', abs(meanS), {'block': [n0, n1]})
+    if abs(meanS) > 0.6:
+        ok_block = False
+        rec.note('Backlund mean implausible', {'block': [n0, n1], 'mean S': meanS})
     gaps = {}           # zero count N -> a trusted point t with N(t) = n0 + c
     for (t, s), c in zip(pts, cum):
         gaps.setdefault(n0 + c, t)
@@ -458,7 +490,9 @@ def check_block(mp, rec, r, tier, n0, n1):
     # brackets around the returned ordinates
     verdict_points = []
     for n, gam in brackets:
-        res = bracket_zero(orc, treez, gam, p)
+        # second source (tree siegelz at 3p): every zero in quick, every 4th + Gram-failure regions in thorough (cost)
+        use_tree = tier == 'quick' or n % 4 == 0 or n in special
+        res = bracket_zero(orc, treez if use_tree else None, gam, p)
         case = {'n': n, 'prec': p, 'gamma': float(gam)}
         if res is None:
             rec.undecided('sign of Z not resolved next to the returned zero', case)
@@ -555,7 +589,7 @@ def check_block(mp, rec, r, tier, n0, n1):
             heights.append((lo, n0 + count_at[('lo', n)][0], 'below-zero'))
             heights.append((hi, n0 + count_at[('hi', n)][0], 'above-zero'))
     if ok_block:
-        check_counts(mp, rec, R, heights, p)
+        check_counts(mp, rec, R, heights, p, 3 if tier == 'quick' else 4)
     else:
         rec.undecided('oracle block count differs from the table: nzeros not decided', {'block': [n0, n1]})
     # grampoint
@@ -647,9 +681,9 @@ def check_other_prec(mp, rec, orc, n, pp, gam53):
                       case, float(gam), float(gam53))
 
 
-def check_counts(mp, rec, R, heights, p):
+def check_counts(mp, rec, R, heights, p, bstep=1):
     rmp = R.mp
-    for q, N, kind in heights:
+    for hi_, (q, N, kind) in enumerate(heights):
         t = frac_to_mpf(mp, q)
         case = {'t': float(q), 'kind': kind, 'expected': N}
         try:
@@ -661,7 +695,7 @@ def check_counts(mp, rec, R, heights, p):
         rec.case(('nzeros', str(q)), True, cls='nzeros/' + kind)
         if got != N or not isinstance(got, int):
             rec.violation('C41/nzeros/' + kind, 'nzeros(t) differs from the number of sign changes of Z below t', case, got, N)
-        if kind in ('gap', 'gram'):
+        if kind in ('gap', 'gram') and hi_ % bstep == 0:
             # backlunds: S(t) = N(t) - 1 - theta(t)/pi, theta from the reference release at p+60 bits
             old = rmp.prec
             rmp.prec = p + 60
